@@ -34,6 +34,30 @@ def check_bban(rec: Rec, cc: str, bban: str, origin="gen"):
                 ok = f"{type(e).__name__}: {e}"
             if ok is not True:
                 rec.fail("from_bban_not_valid", "from_bban_valid", inp, True, ok)
+    # the same BBAN text handed over as a BBAN object - of this country, and of other countries whose structure it fits as well:
+    # the digits are those of the country from_bban is asked for. Declining such an object is tolerated (the statement speaks
+    # of BBANs, not of objects parsed for another country) - unless the complaint is about check digits, which the caller never
+    # supplied: then the library computed them for the wrong country and tripped over its own result
+    if origin in ("min", "max", "letters", "digits", "random") or origin.startswith("alias-adjacent"):
+        from ..dims import sibling_countries
+        from ..lib import BBAN
+        for y in [cc] + sibling_countries(oracle(), cc, bban)[:3]:
+            inp2 = {**inp, "as_bban_object_of": y}
+            try:
+                got = str(IBAN.from_bban(cc, BBAN(y, bban)))
+            except SchwiftyException as e:
+                if y == cc or type(e).__name__ in ("InvalidChecksumDigits", "InvalidBBANChecksum"):
+                    rec.fail(f"from_bban_object_rejects|{'own' if y == cc else 'foreign'}|{type(e).__name__}", "from_bban_valid", inp2,
+                             cc + want + bban, f"{type(e).__name__}: {e}")
+                else:
+                    rec.excluded["from_bban declines a BBAN object of another country (tolerated)"] += 1
+                continue
+            except Exception as e:  # noqa: BLE001
+                rec.fail(f"crash|{type(e).__name__}|{frame_of(e)}", "from_bban_valid", inp2, cc + want + bban, f"{type(e).__name__}: {e}")
+                continue
+            if got != cc + want + bban:
+                rec.fail(f"from_bban_object_wrong_digits|{'own' if y == cc else 'foreign'}", "from_bban_digits", inp2, cc + want + bban, got)
+            rec.classes["bban-object-" + ("own" if y == cc else "foreign")] += 1
     accepted = []
     had_alias = False
     for d in range(100):
@@ -260,4 +284,4 @@ def run(ctx):
     size_extremes(ctx.rec, ctx.seed, ctx.tier)
     from ._configs import stage as _config_stage
     _config_stage(ctx, ['assemble'])
-    ctx.require_classes("bban-size-extreme", "bban", "bban-alias-adjacent", "bban-with-congruent-alias", "bban-zero-run", "bban-token", "bban-block-collision")
+    ctx.require_classes("bban-object-own", "bban-object-foreign", "bban-size-extreme", "bban", "bban-alias-adjacent", "bban-with-congruent-alias", "bban-zero-run", "bban-token", "bban-block-collision")
